@@ -22,11 +22,13 @@ of conditions rather than single boundary values; in round 4 they were asked to 
 randomized and boundary-value campaign would still miss; in rounds 5 and 6 for plausible refactorings,
 optimisations and well-meant extra checks whose flaw needs a particular interleaving, fault point,
 multi-step sequence, unusual input or two cooperating code sites; in round 7 for small edits to existing lines; in round 8
-for both kinds; in round 9 the agents were also told what kind of campaign the change has to slip through. Every change was confirmed here with
+for both kinds; in round 9 the agents were also told what kind of campaign the change has to slip through; in round 10 they were
+asked for changes a real maintainer could plausibly make and a reviewer accept (no contrived machinery), which is the round
+that says most about ordinary use: 23 of 24 were caught by the committed state. Every change was confirmed here with
 `tools/confirmseed` (patch applies to HEAD; builds; existing tests pass with it; demonstration passes
 without and fails with it) before it was kept under `seeded/<id>/` (`patch.diff`, `demo_test.go.txt`,
 the agent's `README.md`, `meta.json`). The checks were run against each change in a scratch copy of
-`/repo` (`tools/tryseed`, `VERIF_REPO`); `/repo` itself was never modified. Rounds 2 to 9 were first
+`/repo` (`tools/tryseed`, `VERIF_REPO`); `/repo` itself was never modified. Rounds 2 to 10 were first
 run against the committed state *before* any strengthening (a `vp run` snapshot), so "caught at first"
 is an honest measure of what the machinery detected unprompted: %s.
 Every miss was analysed, the generators or the attribution of notes were strengthened (never a verdict
